@@ -67,6 +67,7 @@ type Result struct {
 	Files  int
 	// TypeErrs counts tolerated type errors (third-party imports are faked)
 	TypeErrs int
+	Globals  []Global // package-level variables written from function bodies (globals.go)
 }
 
 type loader struct {
@@ -415,13 +416,16 @@ func Scan(repo string, targets []Target) *Result {
 			jobs = append(jobs, job{d, only})
 		}
 	}
+	var rels []string
 	for _, j := range jobs {
 		if l.load(j.dir) == nil {
 			continue
 		}
 		res.Pkgs++
 		l.scanPkg(j.dir, j.only, res)
+		rels = append(rels, j.dir)
 	}
+	res.Globals = l.scanGlobals(rels)
 	res.Errors = append(res.Errors, l.errs...)
 	res.TypeErrs = l.tyErrs
 	sort.SliceStable(res.Sites, func(i, j int) bool {
